@@ -11,6 +11,10 @@
                   sig : to_string() of the signatures joined by newlines]
 
    Every event is judged against the Reference operators of Signature.tla (Acceptable, ...).
+   Clause codes (TLC wraps printed values at 80 columns, so the verdict line must stay short):
+     M Mirror (names, kinds, default/annotation flags, order)   R RoundTrip (to_string re-parses)
+     B Bracket   I Index   DR docstring(raw=True) = inspect.getdoc   DF docstring() = signature + doc
+     shapes: sD dunder-param  sV bound-varpositional  sS star-after-keyword  sK kw-duplicates-positional
    The known deviations are NOT exempted here: an event in such a shape is rejected with the
    shape label in Why, and the harness maps it to the known finding of that shape.            *)
 EXTENDS Naturals, Sequences, FiniteSets, TLC, Json, IOUtils
@@ -27,22 +31,22 @@ AnyDunder(ps) == \E k \in 1..Len(ps) : IsDunder(ps[k].name)
 NL == 10
 
 SigClauses(e) ==
-     (IF e.jp # e.rp THEN {"Mirror"} ELSE {})
-  \cup (IF e.tp # e.jp THEN {"RoundTrip"} ELSE {})
-  \cup (IF e.bs # e.bsx THEN {"Bracket"} ELSE {})
-  \cup (IF PrefixOK(e.rp, e.call) /\ ~IndexAgrees(e.rp, e.call, e.slot, e.idx) THEN {"Index"} ELSE {})
+     (IF e.jp # e.rp THEN {"M"} ELSE {})
+  \cup (IF e.tp # e.jp THEN {"R"} ELSE {})
+  \cup (IF e.bs # e.bsx THEN {"B"} ELSE {})
+  \cup (IF PrefixOK(e.rp, e.call) /\ ~IndexAgrees(e.rp, e.call, e.slot, e.idx) THEN {"I"} ELSE {})
 \* shape labels of the known deviations (evaluated on the CPython side of the record)
 SigShapes(e) ==
-     (IF AnyDunder(e.rp) THEN {"shape:dunder-param"} ELSE {})
-  \cup (IF e.boundvp THEN {"shape:bound-varpositional"} ELSE {})
-  \cup (IF e.slot.t = "star" /\ HasArg(e.call, "kw") /\ e.idx = 0 THEN {"shape:star-after-keyword"} ELSE {})
+     (IF AnyDunder(e.rp) THEN {"sD"} ELSE {})
+  \cup (IF e.boundvp THEN {"sV"} ELSE {})
+  \cup (IF e.slot.t = "star" /\ HasArg(e.call, "kw") /\ e.idx = 0 THEN {"sS"} ELSE {})
   \cup (IF /\ e.slot.t = "kweq" /\ e.idx # 0 /\ e.idx = VKi(e.rp)
            /\ \E i \in 1..NPlain(e.call) : i <= Len(e.rp) /\ e.rp[i].name = e.slot.s /\ e.rp[i].kind = "PK"
-        THEN {"shape:kw-duplicates-positional"} ELSE {})
+        THEN {"sK"} ELSE {})
 DocClauses(e) ==
-     (IF e.raw # e.exp THEN {"DocRaw"} ELSE {})
+     (IF e.raw # e.exp THEN {"DR"} ELSE {})
   \cup (IF e.full # (IF e.raw = <<>> THEN e.sig ELSE IF e.sig = <<>> THEN e.raw ELSE e.sig \o <<NL, NL>> \o e.raw)
-        THEN {"DocFull"} ELSE {})
+        THEN {"DF"} ELSE {})
 Clauses(e) == IF e.k = "sig" THEN SigClauses(e) ELSE DocClauses(e)
 WhyOf(e)   == Clauses(e) \cup (IF e.k = "sig" THEN SigShapes(e) ELSE {})
 
